@@ -116,6 +116,13 @@ def apply_clauses(src, clauses):
                     j += 1
                 edits.append((toks[j].end, toks[j].end, f" {c['iter']}:"))
             edits.append((toks[bo].start, toks[bo].start, "\n" + c["text"].rstrip() + "\n"))
+        elif op in ("loop_start", "loop_end"):
+            n = c["n"]
+            if n < 1 or n > len(loops):
+                raise LostAnchor(f"{op} {n}: function has {len(loops)} loops")
+            kw, bo = loops[n - 1]
+            pos = toks[bo].end if op == "loop_start" else toks[toks[bo].mate].start
+            edits.append((pos, pos, "\n" + c["text"].rstrip() + "\n"))
         elif op == "closure":
             n = c["n"]
             if n < 1 or n > len(closures):
